@@ -1564,6 +1564,17 @@ def norm_cond(e, truth):
         return ("notin", subj, frozenset([v[1]]))
     if r[0] == "const" and isinstance(r[1], int):
         c = r[1]
+        # `x + k op c` / `x - k op c` on overflow-checked unsigned arithmetic: a condition on x
+        for _ in range(2):
+            lc = strip_load(l)
+            if lc[0] == "binop" and lc[1] in ("Add", "Sub") and lc[3][0] == "const" and type(lc[3][1]) is int and type(c) is int:
+                c2 = c - lc[3][1] if lc[1] == "Add" else c + lc[3][1]
+                if c2 < 0:
+                    break
+                l, c = lc[2], c2
+            else:
+                break
+        r = ("const", c)
         if op == "==":
             return ("in", l, frozenset([c]))
         if op == "!=":
